@@ -1670,6 +1670,58 @@ pub fn c10_connection_on_descriptor_zero(rec: &mut Rec, rng: &mut Rng, with_kill
     }
 }
 
+/// the embedding process holds many other files: the server's own descriptors (listener, epoll, connections) have
+/// NUMBERS above 64 / 256 / 1024. Nothing changes: connections are served, released when their clients leave, and
+/// capacity is regained.
+pub fn c10_high_descriptor_numbers(rec: &mut Rec, rng: &mut Rng, n_placeholders: usize) {
+    rec.case("high-descriptor-numbers");
+    rec.nontrivial();
+    let park: Vec<std::fs::File> = (0..n_placeholders).filter_map(|_| std::fs::File::open("/dev/null").ok()).collect();
+    let mut cfg = Cfg::base("C10");
+    cfg.max_clients = 13;
+    let mut sim = Sim::new(rec, cfg);
+    for _ in 0..10 {
+        sim.connect(rec);
+        sim.poll(rec);
+    }
+    for i in 0..3 {
+        sim.send_next(rec, rng, i);
+        while !sim.plans[i].outq.is_empty() {
+            sim.send_next(rec, rng, i);
+        }
+    }
+    for _ in 0..4 {
+        sim.poll(rec);
+    }
+    while !sim.w.held.is_empty() {
+        sim.respond(rec, rng, 0);
+        sim.poll(rec);
+    }
+    for i in 0..4 {
+        sim.w.client_read(rec, i);
+        sim.w.close(rec, i);
+        sim.poll(rec);
+    }
+    sim.poll(rec);
+    let conns = sim.w.server_fds().len().saturating_sub(2);
+    if conns != 6 {
+        rec.oracle_fail("C10", &format!("with {} other files open in the process: 4 of 10 clients left (everything answered), the server holds {} connections, expected 6", n_placeholders, conns), &sim.w.log);
+    }
+    for _ in 0..4 {
+        let y = sim.connect(rec);
+        sim.poll(rec);
+        sim.poll(rec);
+        if !sim.w.clients[y].accepted {
+            rec.oracle_fail("C10", "capacity was not regained after clients left (server descriptors with high numbers)", &sim.w.log);
+            break;
+        }
+    }
+    sim.settle(rec, rng);
+    common_checks(rec, &mut sim, "C10");
+    sim.w.teardown();
+    drop(park);
+}
+
 /// at capacity, several clients are already waiting in the listener's backlog when a client with an unanswered
 /// request leaves; the application answers between two polls. Each waiting client must end up either refused with
 /// the complete 503 message or accepted and served — never cut off with nothing (the batch of one poll can hold the
@@ -1747,6 +1799,9 @@ pub fn c10(rec: &mut Rec, rng: &mut Rng, thorough: bool) {
     c10_fixed_message_after_application_answers(rec, rng);
     for with_kill in [false, true] {
         c10_connection_on_descriptor_zero(rec, rng, with_kill);
+    }
+    for n_placeholders in [70usize, 300] {
+        c10_high_descriptor_numbers(rec, rng, n_placeholders);
     }
     for waiting in 1..=3 {
         for before in [false, true] {
